@@ -22,7 +22,7 @@ CHECKS = {
         technique="reviewed-table census of Option unwraps in the API crate keyed by the producing callee; interval abstract interpretation of header fields (closures, helper summaries, conditional refinements) and value-class taint of entropy-decoded integers to panicking operations on MIR; validation-check reconstruction against a reviewed limit table; call-graph cycle (recursion) census with bound checks; backward data-flow of unwrapped iterator searches; totality of matches over decoded enumerations and ranged integers (explicit-panic arms vs what the parsers reject); must-raw struct-field taint; registry of repair guards (compare / reject / guarded-call facts); signed-index guard rule; blocking-primitive census; lock re-acquisition dataflow; call-graph reachability from thread-pool closures to the render-handle wait (R-POOL-WAIT)",
         text="Decides four mechanisms the property names, for every input: raw hybrid-uint values never reach checked 32-bit arithmetic, "
              "shift amounts, divisors, negation or abs() without a dominating ordering comparison (R-RAWINT: each report is a "
-             "reachable panic); 55 named input limits exist as compare->error checks with the reviewed bound (R-LIMIT); running "
+             "reachable panic); 54 named input limits exist as compare->error checks with the reviewed bound (R-LIMIT; the two hybrid-integer limits are decided by evaluation, R-HYBRID-CONFIG); running "
              "out of bits is an error value (R-EOF); nothing blocks except the render-handle wait and no lock is re-acquired "
              "while held (R-BLOCK). Does not decide general panic-freedom or loop termination.",
         note="intraprocedural; guards matched by dominance of an ordering comparison on the same value class (under-approximate once any comparison is seen)",
